@@ -42,6 +42,9 @@ func collectAreas(context *api.Context, areas b6.Collection[any, b6.Area]) (b6.A
 
 // Return the distance in meters between the given points.
 func distanceMeters(context *api.Context, a b6.Geometry, b b6.Geometry) (float64, error) {
+	if a == nil || b == nil {
+		return 0.0, fmt.Errorf("expected two points, found nothing")
+	}
 	return b6.AngleToMeters(a.Point().Distance(b.Point())), nil
 }
 
